@@ -94,6 +94,7 @@ func (x *Exec) walkWithInvariant(c *CallCtx, d collDesc, h int, fn *ssa.Function
 		isSomeT(app("select", m0, app(wkey, "t")), optS), inRange(app(wkey, "t")), wkey))
 	st.Assume(fmt.Sprintf("(forall ((k %s)) (! (=> (and %s %s) (and (<= 0 (%s k)) (< (%s k) %s) (= (%s (%s k)) k))) :pattern ((%s k)) :pattern ((select %s k))))", ks,
 		isSomeT(app("select", m0, "k"), optS), inRange("k"), widx, widx, wn, wkey, widx, widx, m0))
+	st.Assume(fmt.Sprintf("(forall ((t Int)) (! (=> (and (<= 0 t) (< t %s)) (= (%s (%s t)) t)) :pattern ((%s t))))", wn, widx, wkey, wkey))
 	ord := lt(app(wkey, "t"), app(wkey, "u"))
 	if rng.Desc {
 		ord = lt(app(wkey, "u"), app(wkey, "t"))
@@ -115,7 +116,7 @@ func (x *Exec) walkWithInvariant(c *CallCtx, d collDesc, h int, fn *ssa.Function
 		}
 		bound["$i"] = SV{T: i, Sort: "Int"}
 		bound["$n"] = SV{T: wn, Sort: "Int"}
-		sv, err := evalSpecFns(cl.node, env, x.sigs, bound, map[string]FunSig{"$key": {Args: []string{"Int"}, Ret: ks}}, map[string]string{"$key": wkey})
+		sv, err := evalSpecFns(cl.node, env, x.sigs, bound, map[string]FunSig{"$key": {Args: []string{"Int"}, Ret: ks}, "$idx": {Args: []string{ks}, Ret: "Int"}}, map[string]string{"$key": wkey, "$idx": widx})
 		if err != nil {
 			x.fail("walk %d invariant %s: %v", k, cl.Tag, err)
 			return "true"
